@@ -786,6 +786,9 @@ class Interp:
 
     def ev_Call(self, e, frame):
         # super() support
+        if isinstance(e.func, ast.Name) and e.func.id == "locals" and not e.args:
+            d = VDict([(k, v) for k, v in frame.locals.items()])
+            return d
         if isinstance(e.func, ast.Name) and e.func.id == "super":
             return ops.SuperProxy(frame.locals.get("self") or list(frame.locals.values())[0], frame.cls)
         f = self.ev(e.func, frame)
